@@ -48,6 +48,9 @@ class RunnerBasics(Harness):
             {"M": 2, "A": 2, "H": 0, "S": 1, "acts": L, "pre": 0, "cap": 2},
             {"M": 1, "A": 2, "H": 0, "S": 1, "acts": L, "pre": 1, "cap": 2},
             {"M": 1, "A": 1, "H": 0, "S": 2, "acts": LM, "pre": 0, "cap": 1},
+            # orders with a time-to-live of one step placed in a two-step session without execution (they expire
+            # while the market is not running)
+            {"M": 1, "A": 2, "H": 0, "S": 1, "acts": L, "pre": 2, "cap": 2, "ttl": [1], "script": "expire-in-pre"},
             # agents whose call-backs are bound on the instance in setup()
             {"M": 1, "A": 2, "H": 0, "S": 1, "acts": ["none", "limit", "cancel"], "pre": 1, "cap": 2, "late": True,
              "script": "late"},
@@ -127,6 +130,9 @@ class RunnerBasics(Harness):
             menu = {"vol_fixed": 1, "price_set": [0, 0.4, 2], "ttl": [None],
                     "acts_by_time": {"0": ["limit"], "1": ["none", "limit", "cancel"]},
                     "per_agent": {"0": {"side": "B"}, "1": {"side": "S"}}}
+        elif sc == "expire-in-pre":
+            menu = {"vol_fixed": 1, "price_hi": 1000, "ttl": [1], "per_agent": {"0": {"side": "B"}, "1": {"side": "S"}},
+                    "acts_by_time": {"0": ["limit"], "1": ["none"], "2": ["none", "limit"]}}
         elif sc == "late":     # a buyer and a seller quote one unit at t=0 (no execution), may cancel or quote again at t=1
             menu = {"vol_fixed": 1, "price_hi": 1000, "per_agent": {"0": {"side": "B"}, "1": {"side": "S"}},
                     "acts_by_time": {"0": ["limit"], "1": ["none", "limit", "cancel"]}}
